@@ -1,6 +1,7 @@
 import Pandora.Drv.Util
 import Pandora.Spec.C06
 import Pandora.Model.C06CliShutdown
+import Pandora.Model.C06SinkFail
 
 /-!
 Line-protocol driver of C06. Input kinds (see harness/cmd/c06):
@@ -11,6 +12,7 @@ Line-protocol driver of C06. Input kinds (see harness/cmd/c06):
   kind=queue agg=phout|jsonlines g=<G> k=<K> q=<Q> … [late=1] [sink=file] [fail=N]  reporters × queue × aggregator
   kind=engine agg=… pools= inst= ammo= per= q= slow= cancel= seed=                  the real engine over the real aggregators
   kind=json n=<N> q=<Q> seed=<S>                                                  jsonlines, content level
+  kind=sinkfail agg=phout|jsonlines n=<N> limit=<bytes>                             a sink that rejects writes; only the final flush writes
   kind=proc sig=INT|TERM at=<ms> rps=<R>                                          the pandora binary, stopped by a signal
 -/
 namespace Pandora.Drv.C06
@@ -192,11 +194,35 @@ def handleJson (kv : List (String × String)) (impl : String) : String × String
     (m, if o.reports != n then "fail:driver:report count" else judgeJson o)
   | _, _, _, _ => ("-", s!"fail:crash:{(impl.take 120).toString}")
 
+/-! ### a sink that rejects writes -/
+
+open Pandora.Model.C06SinkFail in
+/-- all `n` samples are queued before `Run` starts, the cancel follows at once, nothing is flushed before the return
+path, the sink rejects everything after `limit` bytes (less than one line): the failing-sink model on the schedule
+"n reports, cancel, n handles, the sink breaks, return" -/
+def modelSinkFail (kind : Kind) (n limit : Nat) : String :=
+  let tr : List Ev := List.replicate n .report ++ [.cancel, .seeCancel] ++ List.replicate n (.drain false) ++
+    [.sinkBreaks, .drain false]
+  let st := run kind {} tr
+  let closed := st.closes == 1 && !st.writeAfterClose && st.phase == .returned
+  s!"err={if st.err then "other" else "nil"} closed={if closed then 1 else 0} failed={if st.failed then 1 else 0} accepted={if st.failed then limit else 0}"
+
+def handleSinkFail (kv : List (String × String)) (impl : String) : String × String :=
+  let ikv := parseKV impl
+  if (lookup ikv "inconclusive").isSome then ("-", "skip:inconclusive") else
+  let kind? : Option Pandora.Model.C06SinkFail.Kind := match getS kv "agg" with
+    | "phout" => some .phout
+    | "jsonlines" => some .jsonlines
+    | _ => none
+  match kind?, getN? kv "n", getN? kv "limit", lookup ikv "closed" with
+  | some kind, some n, some limit, some closed => (modelSinkFail kind n limit, judgeFailingSink (closed == "1"))
+  | _, _, _, _ => ("-", s!"fail:crash:{(impl.take 120).toString}")
+
 open Pandora.Model.CliShutdown in
 /-- what the (repaired) shutdown model says about a single signal: the exit is reached with everything flushed -/
 def modelProcFlushed (sig : String) : Bool :=
   let s := if sig == "INT" then Sig.int else Sig.term
-  let st := run true {} [.signal s, .takeSignal, .engineReturned false, .takeErrs, .tasksDone, .takeWaitDone]
+  let st := run Cfg.repaired {} [.signal s, .takeSignal, .engineReturned false, .takeErrs, .tasksDone, .takeWaitDone]
   match st.exit with
   | some x => x.flushed
   | none => false
@@ -223,6 +249,7 @@ def handle : Handler := fun input impl =>
   | "seq" => handleSeq kv impl
   | "engine" => handleEngine kv impl
   | "json" => handleJson kv impl
+  | "sinkfail" => handleSinkFail kv impl
   | "proc" => handleProc kv impl
   | k => ("-", s!"fail:driver:unknown kind {k}")
 
